@@ -31,12 +31,13 @@ CLAIMS = {
  'C05': dict(tech='contract-based deductive verification (pyvc + z3): MemoryZone contracts, placement block of the engine',
    text='MemoryZone.__init__ / cursor setter raise exactly outside the zone (class invariant start <= cursor <= end+1); the first-pass '
         'block proves every placed line lies inside its zone and origins relative to a zone are offset from its start.',
-   note='Zone manager / create_memzone / include handling not yet under contract.'),
+   note='Zone manager / create_memzone not yet under contract; include handling is under the C17 per-line block (zone unchanged by an include).'),
  'C06': dict(tech='contract-based deductive verification (pyvc + z3): LabelScope lookup and definition',
    text='Contracts on the recursive LabelScope.get_label_value / set_label_value (and the GlobalLabelScope override): a lookup yields '
         'the value from the first table on the LOCAL->FILE->GLOBAL chain, a definition changes exactly the table of the label\'s kind, '
         'and keywords, duplicates, register names and labels with no scope of their kind are rejected.',
-   note='How the loader assigns scopes to lines (AssemblyFile.load_line_objects) is not yet under contract.'),
+   note='The loader\'s scope assignment is covered by the per-line block of AssemblyFile.load_line_objects (region kept, reset to the '
+        'file scope, or a fresh LOCAL scope under it) and by the include contracts (included file under the global scope).'),
  'C07': dict(tech='contract-based deductive verification (pyvc + z3) of the evaluator; BOUNDED exhaustive stand-in for the parser',
    text='ExpressionNode._compute / get_value / _numeric_value are verified against a recursive spec function taken from the '
         'statement (exact rationals, real quotient, floor-modulus, bit operators on integer parts, byte n of the two\'s-complement '
@@ -68,6 +69,56 @@ CLAIMS = {
         'and of every listed combination; numeric bytecode ranges not inverted; memory zones inside the address space.',
    note='packaging.version ordering is trusted (abstract rank); RequiredLanguageLine, register validation and "well-formed definitions are never '
         'rejected" (no other exit reachable) are not under contract; Instruction / InstructionMacro construction assumed.'),
+ 'C08': dict(tech='contract-based deductive verification (pyvc + z3): ConditionStack contracts, inert-directive and include gating contracts',
+   text='Contracts on the real ConditionStack (process_condition, _push, currently_active, is_muted) against the statement: a branch is '
+        'selected iff every enclosing frame is selected, no earlier branch of its chain was, and its own condition holds when the '
+        'directive is reached; #else / #elif / #endif parent rules raise exactly for a missing opener; in an unselected branch a '
+        'non-conditional directive defines no symbol and no zone (PreprocessorLineFactory.parse_line) and an #include loads nothing '
+        '(per-line block of AssemblyFile.load_line_objects).',
+   note='How conditions compare (IfPreprocessorCondition._evaluate_condition) is an assumed deterministic contract (regex + expression '
+        'parsing); the line factories that construct directive lines are assumed with their effects listed in modifies.'),
+ 'C09': dict(tech='contract-based deductive verification (pyvc + z3) of the symbol table and the substitution fixpoint + AST audit of the substitution step',
+   text='Preprocessor.create_symbol grows the table by exactly one key or raises for a duplicate; resolve_symbols is proved to return only '
+        'when no whole word of the line is a defined symbol (fixpoint) and to exit on a cycle; an audit of the current source accepts the '
+        'single rewrite step only in the form re.sub(\\b<escaped symbol>\\b, <value>, line), i.e. whole-word substitution.',
+   note='re.sub / re.findall semantics are trusted library facts (uninterpreted words_of / re_sub with the whole-word pattern); that '
+        'substitution happens in definition order is not separately claimed (the fixpoint result does not depend on it when it terminates).'),
+ 'C10': dict(tech='contract-based deductive verification (pyvc + z3): CompositeAssembledInstruction, macro variant search',
+   text='CompositeAssembledInstruction.__init__ / get_bytes: a macro occupies exactly the sum of its steps\' sizes and its bytes are, step by '
+        'step, what that step emits at address + (sum of the preceding sizes) with its own size (loop invariant over a recursive sum, '
+        'induction lemma for the frame); MacroBytecodeGenerator.generate_bytecode_parts returns the expansion of the FIRST variant that '
+        'accepts the operands; the head of generate_variant_bytecode_parts accepts a variant only through the operand matcher shared with '
+        'instructions (a variant without operands only for a statement without operands).',
+   note='The per-step bytes are an assumed abstraction (ibyte) of the verified AssembledInstruction.get_bytes contract; placeholder '
+        'substitution (@ARG/@REG/@OP string rewriting) and step parsing are not under contract (string replace / regex); '
+        'AssembledInstruction.__init__\'s precondition is assumed at the composite\'s super().__init__ call (its result is overwritten).'),
+ 'C11': dict(tech='contract-based deductive verification (pyvc + z3): data / fill / string emitters',
+   text='DataLine.generate_bytes: byte k of the line is byte k % width of value k // width reduced modulo 2**(8*width) in the configured '
+        'order, for every directive (case split proved exhaustive), numbers and expression texts alike; DataLine.factory (string branch) and '
+        'EmbeddedString.__init__/factory: one value per character after escape processing, then the configured terminator for .cstr/.asciiz/'
+        'bare strings; FillDataLine / FillUntilDataLine / PredefinedDataLine: n copies of the low byte, inclusive upper bound, nothing when past.',
+   note='unicode_escape decoding, ord and the directive regexes are uninterpreted library functions; parse_expression is an assumed contract '
+        '(value of the text in a scope); int.to_bytes is the sampled axiom to_bytes_def; EmbeddedString rejects (ValueError) characters above 255.'),
+ 'C16': dict(tech='contract-based deductive verification (pyvc + z3) over a token model of the printers\' output; BOUNDED stand-in for the listing row helper',
+   text='An io.StringIO is modelled as the list of tokens written (byte value, address field, row start, line end, other text). MinHex: the '
+        'map a reader decodes from the tokens (spec function `decoded`: an address field moves the cursor, a byte is stored at the cursor) '
+        'holds, for every unmuted byte-producing line, that line\'s bytes at its assigned addresses; rows hold at most 16 bytes. IntelHex / '
+        'hex dump: the library object (modelled by the address-to-byte map it holds) receives exactly those bytes at those addresses. Listing: '
+        'the byte column is filled exactly for unmuted lines with at least one byte, from that line\'s bytes, and the address column shows the '
+        'assigned address. The image side is the C03 address-to-byte map over the same sorted line list.',
+   note='The token reading of the output text (sio_write) and IntelHex.puts / write_hex_file / dump are trusted; the listing\'s row-splitting '
+        'helper is only covered by a bounded stand-in (lengths 0..64 / 0..400 x widths 1..8); "each statement exactly once" in the listing '
+        '(copy + sort with a key function) is not under contract; preconditions: lines sorted by address and non-overlapping (C04).'),
+ 'C17': dict(tech='contract-based deductive verification (pyvc + z3): AssemblyFile / LabelScope constructors, include handling, per-line loader block, include-directory de-duplication',
+   text='Every file gets a fresh FILE scope directly under the scope it is given; _handle_include_file loads the included text through a '
+        'new file object whose scope hangs under the includer\'s parent (neither file sees the other\'s file labels), rejects a file that '
+        'was already used, and resolves the name to the unique existing candidate (_locate_filename); the per-line block of '
+        'load_line_objects proves that an include appends in place, leaves the includer\'s local-label region and selected zone untouched '
+        'and loads nothing in an unselected branch; the engine\'s search-directory list is exactly the entries without a later duplicate '
+        '(after realpath), in order.',
+   note='File reading itself (open / iteration) is outside the subset: load_line_objects is verified per line (block contract) and used '
+        'through an assumed abstract contract at the recursive call; the included file starts in the GLOBAL zone, as documented in '
+        'docs/named-memory-zones-requirements.md (read as part of "fresh file state", see DESIGN.md); os.path functions are uninterpreted.'),
  'C12': dict(tech='contract-based deductive verification (pyvc + z3): exits-iff contracts on every constrained byte-code part and on bit packing',
    text='Exceptional postconditions (raised IFF condition) on the real get_value of the min/max, memory-zone, enumeration, relative-address '
         'and sliced-address parts, and on PackedBits.append_bits / AssembledInstruction.get_bytes (value fits the signed-or-unsigned range of its field width 1..64).',
@@ -77,8 +128,7 @@ NA = {
  'C18': 'relates two source texts through a stack of Python re patterns (\\b, look-ahead); no contract within reach of an SMT-based VC generator decides it (DESIGN.md section 7)',
  'C20': 'well-formedness is produced by json/yaml/zipfile/shutil and classification decided by third-party regex engines; no in-repo function carries the property (DESIGN.md section 7)',
 }
-PENDING = {p: 'kernel not yet brought under contract in this build (see DESIGN.md build order); not claimed on a weaker basis'
-           for p in ['C08', 'C09', 'C10', 'C11', 'C16', 'C17']}
+PENDING = {}
 
 def main():
     checks = []
@@ -86,7 +136,7 @@ def main():
         checks.append(dict(property_id=pid, quick_cmd=f'./check {pid} --tier quick', thorough_cmd=f'./check {pid} --tier thorough',
                            evidence_file=f'/verif/evidence/{pid}.json', replay_cmd_template=f'./check {pid} --replay {{path}}',
                            engine='pyvc',
-                           level_claimed=dict(category='proof' if pid != 'C15' else 'other', text=c['text'], design_ref='DESIGN.md section 6'),
+                           level_claimed=dict(category='proof' if pid not in ('C15',) else 'other', text=c['text'], design_ref='DESIGN.md section 6'),
                            level_note=c['note'], technique=c['tech']))
     na = [dict(property_id=p, reason=r) for p, r in sorted({**NA, **{k: v for k, v in PENDING.items() if k not in CLAIMS}}.items())]
     m = dict(version=1,
